@@ -26,6 +26,9 @@ spec -> code : TLC emits, for every basis field (and pair sums in thorough), the
                Every case is replayed in several CoordinateSystem objects of the same type in one process, interleaved
                (object A, object B, a newly created one, A again); a result containing symbols foreign to the system of
                the field is a violation.
+               Second step: the operators are applied to the RESULT OBJECTS of the operators (curl curl, grad div, div grad,
+               div curl, curl grad; FieldOps!Composition says the result is a field of the same system) and compared with
+               the model at the points; a result bound to another coordinate system than its argument is a violation.
 code -> spec : every value the real operators returned at a point for a polynomial field is written to a JSON
                trace; spec/FieldOpsTrace.tla lets TLC recompute it from the coefficient maps (Pad, Grad, Div,
                Curl, PEval) and reject differing records.  The verdict on those is TLC's.
@@ -54,7 +57,7 @@ TIERS = {
                      emit=dict(D=3, MaxDeg=3, MaxTerms=2, EmitDeg=3, EmitTerms=2),
                      curv_deg=3, generic=True, call_limit=60),
 }
-MODEL_INVARIANTS = ["TypeOK", "CurlGradZero", "DivCurlZero", "MixedPartials", "Leibniz", "ShiftEval"]
+MODEL_INVARIANTS = ["TypeOK", "CurlGradZero", "DivCurlZero", "MixedPartials", "Leibniz", "ShiftEval", "Composition"]
 TRACE_D = 4
 
 CS = {}
@@ -115,7 +118,46 @@ def lib_curl(system, fn):
     from symplyphysics.core.fields.operators import curl_operator
     from symplyphysics.core.fields.vector_field import VectorField
     field = VectorField(lambda p: fn(_coords(p)), CUR[system])
-    return list(curl_operator(field).apply_to_basis().components)
+    rot = curl_operator(field)
+    _same_system(rot, system, "the curl")
+    return list(rot.apply_to_basis().components)
+
+
+class WrongSystem(Exception):
+    """An operator returned its result bound to another coordinate system than the one of its argument."""
+
+
+def _same_system(obj, system, what):
+    mine, got = CUR[system], obj.coordinate_system
+    if got.coord_system_type != mine.coord_system_type or got.coord_system != mine.coord_system:
+        raise WrongSystem(f"{what} of a field in the {system} system {mine.coord_system} is bound to the "
+                          f"{got.coord_system_type.name} system {got.coord_system}")
+
+
+def lib_compose(system, kind, fn):
+    """The operators applied one after the other, each to the RESULT OBJECT of the previous one.
+    kind "s": fn(q) scalar expression -> {"divgrad": expr, "curlgrad": comps}
+    kind "v": fn(q) components        -> {"curlcurl": comps, "divcurl": expr, "graddiv": comps}"""
+    from symplyphysics.core.fields.operators import curl_operator, divergence_operator, gradient_operator
+    from symplyphysics.core.fields.scalar_field import ScalarField
+    from symplyphysics.core.fields.vector_field import VectorField
+    cs = CUR[system]
+    if kind == "s":
+        grad = gradient_operator(ScalarField(lambda p: fn(_coords(p)), cs))
+        _same_system(grad, system, "the gradient")
+        gfield = VectorField.from_vector(grad)
+        rot = curl_operator(gfield)
+        _same_system(rot, system, "the curl of the gradient")
+        return {"divgrad": divergence_operator(gfield), "curlgrad": list(rot.apply_to_basis().components)}
+    field = VectorField(lambda p: fn(_coords(p)), cs)
+    rot = curl_operator(field)
+    _same_system(rot, system, "the curl")
+    rot2 = curl_operator(rot)
+    _same_system(rot2, system, "the curl of the curl")
+    # the divergence is an expression over the base scalars of the system: a scalar field of that system
+    dfield = ScalarField.from_expression(divergence_operator(field), cs)
+    return {"curlcurl": list(rot2.apply_to_basis().components), "divcurl": divergence_operator(rot),
+            "graddiv": list(gradient_operator(dfield).components)}
 
 
 class Out:
@@ -139,6 +181,9 @@ def _call(out, key, fn):
             return fn()
     except HardTimeout:
         out.verdicts.append(("outside", key, f"operator call timed out after {CALL_LIMIT} s"))
+        return None
+    except WrongSystem as e:
+        out.verdicts.append(("violation", key, str(e)))
         return None
 
 
@@ -175,6 +220,31 @@ def _rat_list(vals):
 
 
 # ---- spec -> code: emitted Cartesian basis fields, routes (a) and (b) -------------------------------
+def _compositions(out, case, system, kind, comps, name, pts):
+    """Second step: the operators applied to the result objects of the operators (curl curl, grad div, div grad,
+    div curl, curl grad), compared with the model's values at the points."""
+    key = f"compose:{system}:{name}"
+    if kind == "s":
+        res = _call(out, key, lambda: lib_compose(system, "s", lambda q: fc.scalar_in(system, comps[0], q)))
+    else:
+        res = _call(out, key, lambda: lib_compose(system, "v", lambda q: fc.vector_in(system, comps, q)))
+    if res is None:
+        return
+    q = scalars(system)
+    info = {"sys": system, "route": "a" if system == "cart" else "b"}
+    zero3 = [sp.S.Zero] * 3
+    for k, pt in enumerate(pts):
+        for op, val in res.items():
+            if isinstance(val, list):
+                obs = fc.rotate_back(system, [fc.eval_at(c, system, q, pt) for c in val], pt)
+                exp = zero3 if op == "curlgrad" else _rat_list(case[op][k])
+            else:
+                obs = [fc.eval_at(val, system, q, pt)]
+                exp = [sp.S.Zero] if op == "divcurl" else [fc.rat(case[op][k])]
+            obs = [sp.simplify(v) if not sp.sympify(v).is_Rational else v for v in obs]
+            _compare(out, f"{op}:{system}:{name}", op, comps, info, pt, obs, exp)
+
+
 def replay_emit(case):
     if not CS:
         _init()
@@ -193,6 +263,7 @@ def replay_emit(case):
                 obs = fc.rotate_back(system, [fc.eval_at(c, system, q, pt) for c in g], pt)
                 _compare(out, key, "grad", [comps[0]], {"sys": system, "route": "a" if system == "cart" else "b"},
                          pt, obs, _rat_list(case["grad"][k]))
+            _compositions(out, case, system, "s", [comps[0]], name, pts)
         return out.result()
     used = [i + 1 for i, c in enumerate(comps) if c]
     # (a) Cartesian system, 0..3 components given
@@ -236,6 +307,8 @@ def replay_emit(case):
                     obs = fc.rotate_back(system, [fc.eval_at(c, system, q, pt) for c in res], pt)
                     exp = _rat_list(case["curl"][k])
                 _compare(out, key, op, comps, {"sys": system, "route": "b"}, pt, obs, exp)
+    for system in SYSTEMS:
+        _compositions(out, case, system, "v", comps, name, pts)
     return out.result()
 
 
